@@ -364,13 +364,13 @@ def parse_cbmc_json(out):
         return None, [out[-500:]]
     try:
         doc = json.loads(out[i:])
-    except Exception:
+    except Exception as e0:  # noqa
         # try to cut at last ']'
         j = out.rfind("]")
         try:
             doc = json.loads(out[i:j + 1])
-        except Exception:
-            return None, [out[-800:]]
+        except Exception as e1:  # noqa
+            return None, ["json parse: %s / %s; head=%r tail=%r" % (e0, e1, out[:200], out[-300:])]
     results = None
     msgs = []
     for e in doc:
